@@ -15,6 +15,7 @@ CONSTANTS
   MaxAtt = 2
   Crashes = FALSE
   StartBy = 0
+  HealOdds = 3
 VIEW View
 INVARIANTS InvNotStaleEmit
 CHECK_DEADLOCK FALSE
